@@ -31,6 +31,10 @@ CH = ("GooFitChain", "GooFitPyChain")
 def run(ctx, ss):
     for r, f in (("C18.1", c18_1), ("C18.2", c18_2), ("C18.3", c18_3), ("C18.4", c18_4), ("C18.5", c18_5)):
         ctx.guard(r, f, ss)
+    # the amplitudes that are permuted are those of the expansion: each once, in input order (shared clause of C17.5)
+    from .c05 import _as
+    from .c17 import c17_5
+    ctx.guard("C18.6", lambda c, s: _as(c, s, c17_5, "C18.6"), ss)
 
 
 def c18_1(ctx, ss):
